@@ -18,8 +18,8 @@ import (
 )
 
 var (
-	c16UDP = []string{"answer", "tc-empty", "tc-with-records", "silent", "nxdomain", "tc-servfail"}
-	c16TCP = []string{"answers", "dial-refused", "abort-after-write", "silent", "answers-tc-again", "garbage", "silent-then-late-reply"}
+	c16UDP = []string{"answer", "tc-empty", "tc-with-records", "silent", "nxdomain", "tc-servfail", "answer-3000-octets", "tc-3000-octets"}
+	c16TCP = []string{"answers", "dial-refused", "abort-after-write", "silent", "answers-tc-again", "garbage", "silent-then-late-reply", "connect-completes-after-the-deadline"}
 	c16Q   = []string{"A", "TXT", "A+OPT", "AAAA-mixedcase"}
 	// between the first and the second exchange: the server closes / resets the idle TCP connection, or the pooled UDP socket breaks
 	c16Between = []string{"nothing", "tcp-idle-fin", "tcp-idle-abort", "udp-socket-dead"}
@@ -79,6 +79,9 @@ func c16Scenario(c *choice.Ctx, rep *report.R) {
 	wire := q.Encode(false)
 	if ti == 1 {
 		td.Script(env.DialRefuse, env.DialRefuse)
+	}
+	if c16TCP[ti] == "connect-completes-after-the-deadline" {
+		td.Script(env.DialLate) // the first TCP connect is still in progress when the caller's deadline passes; it completes afterwards
 	}
 	obs := ""
 	for round := 0; round <= second; round++ {
@@ -157,6 +160,15 @@ func c16Scenario(c *choice.Ctx, rep *report.R) {
 		case "tc-servfail":
 			udpReply = env.RCodeReply(uq.Msg, 2)
 			udpReply.Bits |= refdns.BitTC
+		case "answer-3000-octets", "tc-3000-octets":
+			// a datagram larger than 2048 octets (the server may send up to what the query advertised, or ignore it)
+			udpReply = env.Answer(uq.Msg, byte(30+round), 60)
+			for i := 0; i < 11; i++ {
+				udpReply.An = append(udpReply.An, refdns.TXT(uq.Msg.Q[0].Name, 60, 250, byte('a'+i)))
+			}
+			if c16UDP[ui] == "tc-3000-octets" {
+				udpReply.Bits |= refdns.BitTC
+			}
 		}
 		if udpReply != nil {
 			ud.ImplEnd(udpConn).Inject(udpReply.Encode(false))
@@ -166,7 +178,13 @@ func c16Scenario(c *choice.Ctx, rep *report.R) {
 		// TCP leg
 		var tcpReply *refdns.Msg
 		nTCP, lastTCP := tcpFrames()
-		if tc {
+		lateConnect := c16TCP[ti] == "connect-completes-after-the-deadline"
+		if tc && lateConnect && round == 0 {
+			// the TCP connect is still in progress: no query yet, the exchange ends with an error at its deadline
+			if td.Pending() != 1 {
+				fail("no-tcp-retry", fmt.Sprintf("UDP reply had TC set but %d TCP connects are in progress", td.Pending()))
+			}
+		} else if tc {
 			if c16TCP[ti] != "dial-refused" {
 				staleRetry := round == 1 && (between == "tcp-idle-fin" || between == "tcp-idle-abort") // the first attempt may go to the dead pooled connection and is then repeated
 				if nTCP < tcpBefore+1 || (nTCP != tcpBefore+1 && !staleRetry) || nTCP > tcpBefore+7 {
@@ -188,7 +206,7 @@ func c16Scenario(c *choice.Ctx, rep *report.R) {
 							tcpReply = env.Answer(tq, byte(70+round), 60)
 							td.ImplEnd(ci).Inject(refdns.Frame(tcpReply.Encode(false)))
 						}
-					case "answers":
+					case "answers", "connect-completes-after-the-deadline":
 						tcpReply = env.Answer(tq, byte(50+round), 60)
 						td.ImplEnd(ci).Inject(refdns.Frame(tcpReply.Encode(false)))
 					case "answers-tc-again":
@@ -216,6 +234,13 @@ func c16Scenario(c *choice.Ctx, rep *report.R) {
 		if !cl.done {
 			fail("missed-deadline", "exchange did not return by its deadline")
 			return
+		}
+		if tc && lateConnect && round == 0 {
+			// the connect completes now, just after the exchange it was started for gave up (and well inside the dial timeout)
+			for td.Pending() > 0 {
+				td.Release(true)
+			}
+			wait()
 		}
 		if cl.panicked != nil {
 			fail("panic", fmt.Sprint(cl.panicked))
